@@ -22,7 +22,7 @@ from .core import HarnessError, cjson, digest
 
 PROP = "C14"
 SHAREABLE = ["page", "title", "subline", "page_header", "page_footer", "footnote", "source",
-             "body", "header", "df"]
+             "body", "header", "df", "figure"]
 ABORT_EXCS = ["MemoryError", "KeyboardInterrupt", "ValueError", "InjectedFault"]
 MUTABLE = ["title", "footnote", "source", "page_header", "page_footer", "subline"]
 
